@@ -9,6 +9,7 @@
   unchanged after the image is re-opened is the engine's end-to-end oracle.
 -/
 import DiskfsModel.Proofs.MetaCodec
+import DiskfsModel.Proofs.MetaInodeBytes
 import DiskfsModel.Generated.Meta
 namespace Diskfs.C19
 open Diskfs.Meta Diskfs.Ext4.InodeCodec
@@ -25,6 +26,34 @@ theorem fat_time_roundtrip (c : Civil) (h : InFatRange c) :
   simp only at h1 h2 h3 h4 h5 h6 h7 h8 h9
   simp only [fatUnpack, fatPack, floor2s, Civil.mk.injEq]
   refine ⟨?_, ?_, ?_, ?_, ?_, ?_⟩ <;> omega
+
+/-- outside 1980..2107 the code stores the year modulo 128 (a 7-bit field; years before 1980 go through a
+    negative int truncated to uint16): every civil time, whatever its year, comes back with its month, day
+    and time of day intact (to 2 s) and the year 1980 + (year - 1980) mod 128 — 2108 reads 1980, 1979 reads
+    2107, 1970 reads 2098. -/
+theorem fat_time_year_wraps (c : Civil) (h3 : 1 ≤ c.month) (h4 : c.month ≤ 12) (h5 : 1 ≤ c.day) (h6 : c.day ≤ 31)
+    (h7 : c.hour ≤ 23) (h8 : c.minute ≤ 59) (h9 : c.second ≤ 59) :
+    fatUnpack (fatPack c).1 (fatPack c).2 =
+      { floor2s c with year := 1980 + (((c.year : Int) - 1980) % 128).toNat } := by
+  obtain ⟨y, mo, d, hh, mi, s⟩ := c
+  simp only at h3 h4 h5 h6 h7 h8 h9
+  simp only [fatUnpack, fatPack, floor2s, Civil.mk.injEq]
+  refine ⟨?_, ?_, ?_, ?_, ?_, ?_⟩ <;> omega
+
+/-- Chtimes(p, ctime, atime, mtime) on a FAT entry, as stored and parsed again: creation and modification
+    time to 2 s, the access time as its date at midnight (the entry has no access time of day). -/
+theorem fat_chtimes_roundtrip (t : EntryTimes) (hc : InFatRange t.create) (hm : InFatRange t.modify)
+    (ha : InFatRange t.access) :
+    fatTimesDec (fatTimesEnc t) = ⟨floor2s t.create, floor2s t.modify, dateOnly t.access⟩ := by
+  have hd : InFatRange (dateOnly t.access) := by
+    obtain ⟨h1, h2, h3, h4, h5, h6, _, _, _⟩ := ha
+    exact ⟨h1, h2, h3, h4, h5, h6, by simp [dateOnly], by simp [dateOnly], by simp [dateOnly]⟩
+  have e := fat_time_roundtrip (dateOnly t.access) hd
+  have e1 : (fatPack (dateOnly t.access)).1 = (fatPack t.access).1 := rfl
+  have e2 : (fatPack (dateOnly t.access)).2 = 0 := by simp [fatPack, dateOnly]
+  have e3 : floor2s (dateOnly t.access) = dateOnly t.access := by simp [floor2s, dateOnly]
+  rw [e1, e2, e3] at e
+  simp only [fatTimesDec, fatTimesEnc, fat_time_roundtrip t.create hc, fat_time_roundtrip t.modify hm, e]
 
 /-- just outside the range the year is garbage (2108 reads back as 1980): the range is tight -/
 theorem fat_time_year_2108_wraps : (fatUnpack (fatPack ⟨2108, 1, 1, 0, 0, 0⟩).1 0).year = 1980 := by decide
@@ -75,6 +104,39 @@ theorem ext4_chtimes_frame (a : Attrs) (cr at' mt : Ts) :
     enc (chtimes a cr at' mt) = { enc a with
       crtimeLo := tsLo cr, crtimeExtra := tsExtra cr, atimeLo := tsLo at', atimeExtra := tsExtra at',
       mtimeLo := tsLo mt, mtimeExtra := tsExtra mt } := rfl
+
+/-! the setters on the whole inode record (256 bytes on the library's images): FileSystem.Chmod / Chown /
+    Chtimes read the inode, change their fields and write it back; the record written differs from the record
+    read only in the setter's words (and the checksum halves, not modelled) -/
+
+/-- Chmod on the record: the attributes it decodes to are the old ones with the new permission bits (type
+    nibble, owner, size, times … untouched), the record keeps its length and every byte from offset 2 on -/
+theorem ext4_chmod_record (b : Bytes) (perm : Nat) (h : RecordWF b) (hp : perm < 4096) :
+    attrsOf (chmodBytes b perm) = chmod (attrsOf b) perm ∧ (chmodBytes b perm).length = b.length ∧
+    ∀ i, 2 ≤ i → (chmodBytes b perm)[i]? = b[i]? :=
+  ⟨attrsOf_chmodBytes b perm h hp, putWord_length b 0 2 _ (by unfold RecordWF at h; omega),
+    fun i hi => chmodBytes_frame b perm i h hi⟩
+
+/-- Chown on the record: uid / gid as given (`none`, the API's -1, keeps the stored value — also one above
+    65535, through both halves), every byte outside the four id words untouched -/
+theorem ext4_chown_record (b : Bytes) (uid gid : Option Nat) (h : RecordWF b)
+    (hu : ∀ x, uid = some x → x < 4294967296) (hg : ∀ x, gid = some x → x < 4294967296) :
+    attrsOf (chownBytes b uid gid) = chown (attrsOf b) uid gid ∧
+    ∀ i, (i < 0x2 ∨ (0x4 ≤ i ∧ i < 0x18) ∨ (0x1a ≤ i ∧ i < 0x78) ∨ 0x7c ≤ i) → (chownBytes b uid gid)[i]? = b[i]? :=
+  ⟨attrsOf_chownBytes b uid gid h hu hg, fun i hi => chownBytes_frame b uid gid i h hi⟩
+
+/-- Chtimes on the record: creation, access and modification time as given on [-2^31, 2^34-2^31) with
+    nanoseconds; the change time words (0xc, 0x84) and every other byte outside the six words untouched -/
+theorem ext4_chtimes_record (b : Bytes) (cr at' mt : Ts) (h : RecordWF b) (hc : TsWF cr) (ha : TsWF at') (hm : TsWF mt) :
+    attrsOf (chtimesBytes b cr at' mt) = chtimes (attrsOf b) cr at' mt ∧
+    ∀ i, (i < 0x8 ∨ (0xc ≤ i ∧ i < 0x10) ∨ (0x14 ≤ i ∧ i < 0x88) ∨ 0x98 ≤ i) → (chtimesBytes b cr at' mt)[i]? = b[i]? :=
+  ⟨attrsOf_chtimesBytes b cr at' mt h hc ha hm, fun i hi => chtimesBytes_frame b cr at' mt i h hi⟩
+
+/-- a field of the record reads back what was written into it, and leaves every field that does not overlap alone -/
+theorem ext4_record_field (b : Bytes) (off width v o2 w2 : Nat) (h : off + width ≤ b.length) :
+    getWord (putWord b off width v) off width = v % 256 ^ width ∧
+    ((o2 + w2 ≤ off ∨ off + width ≤ o2) → getWord (putWord b off width v) o2 w2 = getWord b o2 w2) :=
+  ⟨getWord_putWord_same b off width v h, fun hd => getWord_putWord_other b off width v o2 w2 h hd⟩
 
 /-- the setters never change the kind: after Chmod the decoded type is the one before -/
 theorem ext4_chmod_keeps_kind (a : Attrs) (h : AttrsWF a) (p : Nat) (hp : p < 4096) :
@@ -190,5 +252,11 @@ example : TsWF ⟨-86400, 999999999⟩ := by simp [TsWF]
 example : AttrsWF ⟨8, 0o4755, 100000, 65536, 5000000000, 1, 0x80000, ⟨-1, 5⟩, ⟨0, 0⟩, ⟨4294967296, 1⟩, ⟨15032385535, 999999999⟩⟩ := by
   simp [AttrsWF, TsWF]
 example : (idIndex [0, 1000] 65534) = ([0, 1000, 65534], 2) := by decide
+example : RecordWF (zeros 256) := by simp [RecordWF]
+example : (attrsOf (chmodBytes (zeros 256) 0o4750)).perm = 0o4750 := by
+  rw [(ext4_chmod_record (zeros 256) 0o4750 (by simp [RecordWF]) (by decide)).1]; rfl
+-- a directory's mode word 0x41ed after Chmod 04750: type nibble 4 kept, twelve bits replaced
+example : (0x41ed / 4096 * 4096 + 0o4750) % 65536 = 0x49e8 := by decide
+example : fatUnpack (fatPack ⟨1970, 1, 1, 0, 0, 1⟩).1 (fatPack ⟨1970, 1, 1, 0, 0, 1⟩).2 = ⟨2098, 1, 1, 0, 0, 0⟩ := by decide
 
 end Diskfs.C19
